@@ -58,7 +58,7 @@ fn membership(op0: u8, op1: u8) -> [[bool; 2]; 2] {
     std::mem::forget(g);
     model
 }
-// (not shipped: symbolic group/member keys exceed 8 GB) C09 tier=quick role=multicast_membership timeout=900 desc=join,leave
+// (not shipped: symbolic group/member keys exceed 8 GB, re-measured after the entry-API redesign) C09 tier=thorough role=multicast_membership timeout=900 desc=join,leave
 crate::verif_proof! { unwind = 6;
 fn c09_multicast_join_then_leave() {
     let m = membership(0, 1);
@@ -66,21 +66,21 @@ fn c09_multicast_join_then_leave() {
     kani::cover!(m[0][0] && m[0][1], "two members in one group");
 }
 }
-// (not shipped: symbolic group/member keys exceed 8 GB) C09 tier=quick role=multicast_membership timeout=900 desc=join,leave_all
+// (not shipped: symbolic group/member keys exceed 8 GB, re-measured after the entry-API redesign) C09 tier=thorough role=multicast_membership timeout=900 desc=join,leave_all
 crate::verif_proof! { unwind = 6;
 fn c09_multicast_join_then_leave_all() {
     let m = membership(0, 2);
     kani::cover!(!m[0][0] && m[0][1], "leave_all removed one member, the other stays");
 }
 }
-// (not shipped: symbolic group/member keys exceed 8 GB) C09 tier=thorough role=multicast_membership timeout=900 desc=join,join
+// (not shipped: symbolic group/member keys exceed 8 GB, re-measured after the entry-API redesign) C09 tier=thorough role=multicast_membership timeout=900 desc=join,join
 crate::verif_proof! { unwind = 6;
 fn c09_multicast_join_join() {
     let m = membership(0, 0);
     kani::cover!(m[0][0] && m[1][1], "members in two groups");
 }
 }
-// (not shipped: symbolic group/member keys exceed 8 GB) C09 tier=thorough role=multicast_membership timeout=900 desc=leave,join
+// (not shipped: symbolic group/member keys exceed 8 GB, re-measured after the entry-API redesign) C09 tier=thorough role=multicast_membership timeout=900 desc=leave,join
 crate::verif_proof! { unwind = 6;
 fn c09_multicast_leave_then_join() {
     let m = membership(1, 0);
